@@ -323,11 +323,13 @@ BIT_BUDGET = 1 << 18
 
 
 class Val:
-    __slots__ = ("v", "d")
+    __slots__ = ("v", "d", "f", "nan")
 
     def __init__(self, v, d=None):
         self.v = v
         self.d = d or {}
+        self.f = False      # value came from a machine float (outside the exact fragment)
+        self.nan = False
 
     def key(self):
         return (self.v, tuple(sorted(self.d.items())))
